@@ -384,10 +384,13 @@ pub fn tw_eval(x: &[Vec<f64>], y: &[f64], p: f64, link: RefLink, alpha: f64, int
 pub fn weakly_separable(x: &[Vec<f64>], y: &[f64], intercept: bool) -> Option<bool> {
     let d = x[0].len();
     let p = d + intercept as usize;
+    // separability does not depend on a common positive factor: lattices scaled by 1/8 are tested as integers
+    let mult = if x.iter().flatten().all(|v| v.fract() == 0.0) { 1.0 } else { 8.0 };
     let mut rows: Vec<Vec<i64>> = Vec::new();
     for (xi, &yi) in x.iter().zip(y) {
         let mut r = Vec::with_capacity(p);
         for &v in xi {
+            let v = v * mult;
             if v.fract() != 0.0 || v.abs() > 1e6 {
                 return None;
             }
